@@ -57,6 +57,7 @@ class FakeProc:
         self.cwd = cwd
         self.returncode = None
         self.kill_sent = False
+        self.term_immune = False
         self._out = out
         self._err = err
         self._waiters = []
@@ -95,6 +96,8 @@ class FakeProc:
     def send_signal(self, sig):
         if self.returncode is not None:
             raise ProcessLookupError()  # as asyncio's process transport does once the child was reaped
+        if int(sig) != int(signal.SIGKILL) and self.term_immune:
+            return  # the script traps or ignores this signal; only SIGKILL is unconditional
         self.kill_sent = True
         self.world.loop.call_soon(self._exit, -int(sig))
 
@@ -314,6 +317,7 @@ class World:
         pid = self._next_pid
         self._next_pid += 1
         p = FakeProc(self, pid, script, cwd, tm.out, tm.err)
+        p.term_immune = bool(getattr(tm, "term_immune", False))
         tm.proc = p
         tm.spawn_time = self.loop.time()
         self.procs.append(p)
@@ -339,7 +343,7 @@ class World:
             raise HarnessError("coroutine did not finish at a quiescent point")
         return t.result()
 
-    def submit(self, dep_idxs, time_limit, startfail, out=b"", err=b""):
+    def submit(self, dep_idxs, time_limit, startfail, out=b"", err=b"", term_immune=False):
         idx = len(self.tasks)
         deps = []
         for i in dep_idxs:
@@ -352,6 +356,7 @@ class World:
         # registered before the pool sees it: the task may be started while
         # enqueue_task is still being settled
         tm = TaskModel(idx, None, name, deps, time_limit, startfail, out, err)
+        tm.term_immune = term_immune
         self.by_script[script] = tm
         tid = self.run_coro(
             self.sched.enqueue_task(name, script, self.dir, time_limit, list(deps))
@@ -398,6 +403,7 @@ class World:
         if before in ("SUBMITTED", "RUNNING"):
             if tm.timed_out:
                 tm.cancel_after_timeout = True
+                self.labels.add("cancel-during-kill-sequence")
             tm.cancel_hit = True
             if tm.proc is not None and before == "RUNNING":
                 self.labels.add("cancel-running")
@@ -487,6 +493,11 @@ class World:
                 self.viol("C13", {"kind": "cancel-not-cancelled", "got": st},
                           f"task {tm.idx} was cancelled while {'running' if tm.proc else 'waiting'} but is {st}")
         if settled:
+            for tm in self.tasks:
+                if (tm.cancel_hit or tm.timed_out) and tm.proc is not None and tm.proc.alive:
+                    self.viol("C13", {"kind": "process-survives-cancel-or-timeout"},
+                              f"process of task {tm.idx} is still alive although the task was "
+                              f"{'cancelled' if tm.cancel_hit else 'timed out'} and no kill sequence is pending")
             ready = [
                 tm for tm in self.tasks
                 if self.state(tm.tid) == "SUBMITTED" and not tm.cancel_hit and tm.spawns == 0
@@ -614,8 +625,9 @@ def run_history(case):
             w.step_no += 1
             op = step[0]
             if op == "submit":
-                _, deps, tl, sf, osz, esz = step
-                w.submit(deps, tl, sf, _payload(osz, b"o"), _payload(esz, b"e"))
+                _, deps, tl, sf, osz, esz = step[:6]
+                tm = w.submit(deps, tl, sf, _payload(osz, b"o"), _payload(esz, b"e"),
+                              term_immune=bool(step[6]) if len(step) > 6 else False)
             elif op == "exit":
                 w.exit_proc(step[1], step[2])
             elif op == "cancel":
